@@ -314,6 +314,7 @@ def _abs_read(bb, upto=None, what="both"):
 
 c = contract(D + "groupsize.py::MissingGroupSize._accessed_using_absolute_index", params={"bb": T.Ref("BasicBlock")}, returns=T.Bool,
              ghost={"v": T.Abs("Visit")}, tags=["C01", "C03"], touch=["bb"], raises=[("TealerException", None)])
+c.timeout_factor = 6.0
 requires(c, "operands", lambda bb: VBool(_operands_ok(bb)))
 ensures(c, "exact", lambda bb, result: Iff(result, VBool(_abs_read(bb))),
         note="true iff the block holds gtxn / gtxna / gtxnas, or gtxns / gtxnsa / gtxnsas whose index operand is pushed by int, "
